@@ -572,7 +572,12 @@ JANET_CORE_FN(cfun_net_connect,
 #else
         if (err != EINPROGRESS) {
 #endif
-            JSOCKCLOSE(sock);
+            /* The stream owns the socket now: close it through the stream, or its finalizer
+             * closes the (by then reused) descriptor number a second time. */
+            janet_stream_close(stream);
+#ifndef JANET_WINDOWS
+            errno = err;
+#endif
             Janet lasterr = janet_ev_lasterr();
             janet_panicf("could not connect socket: %V", lasterr);
         }
